@@ -303,7 +303,11 @@ class CodeBase:
         """
         Iterate over all files in the code base by walking each directory.
         """
+        # Directories may overlap (one below another, or the same directory
+        # twice): every file is listed once.
+        listed = set()
         for directory in self.directories:
             for path in Path(directory).rglob("*"):
-                if self.__contains__(path):
+                if path not in listed and self.__contains__(path):
+                    listed.add(path)
                     yield str(path)
